@@ -215,6 +215,18 @@ def eval_raw(case):
         cnt += roundtrip(flavour, 'SRC', v, f'{ctx} [{flavour}]')
         if (stored(flavour, 'DECOY1'), stored(flavour, 'DECOY2')) != decoys:
             v.append((f'import-disturbs-other-graph/{flavour}', ctx))
+        if flavour == 'shared':
+            # reassigning to an id that is occupied: the shared store replaces that graph, so the copy must be exact
+            src = gclass(flavour)(graph_id='SRC', importer=imp)
+            want = stored(flavour, 'SRC')
+            for fmt in FORMATS:
+                try:
+                    imp.import_graph_from_string(graph_string=src.serialize_graph(format=fmt), graph_id='DECOY1')
+                    got = stored(flavour, 'DECOY1')
+                    if got[0] != want[0] or got[1] != ['DECOY1']:
+                        v.append((f'content/{fmt.name}/string-into-occupied-id', f'{_diff(want[0], got[0])} {ctx}'))
+                except Exception as e:
+                    v.append((f'import-raises/{fmt.name}/string-into-occupied-id/{type(e).__name__}', f'{e} {ctx}'))
     nontriv = case if (any(edge_idx) or vals) else None
     return {'v': v, 'nt': nontriv, 'out': f'n{n}e{sum(1 for e in edge_idx if e)}v{len(vals)}', 'tags': {f'rt{cnt}'}}
 
@@ -375,4 +387,4 @@ def run(report):
                  f'entries + Topology.serialize/load (string, file, new id) + import into the per-graph store')
     report.assumptions += ["value domain: XML-legal text; '\\r' and C0 controls are excluded (XML line-end normalisation is not the "
                            "library's doing); one Python type per attribute name (GraphML keys are typed)",
-                           'graph ids of copies are fresh ids (re-import over a live id has store-specific replace/skip semantics, see C04)']
+                           'graph ids of copies are fresh ids, plus re-import over an occupied id on the shared store (replace semantics); the per-graph store documents a skip there (see C04)']
